@@ -62,6 +62,7 @@ fn skip_attr(skip: u8) -> &'static str {
         4 => "#[serde(skip, alias = \"other\")]\n",
         5 => "#[typeshare(typescript(readonly), skip)]\n",
         6 => "#[serde(default)]\n#[serde(skip)]\n",
+        7 => "#[serde(\n    skip,\n)]\n",
         _ => "",
     }
 }
@@ -72,7 +73,7 @@ fn plants(rng: &mut Rng, per_cell: usize) -> Vec<Plant> {
     for (cname, leaf) in LEAVES {
         for position in ["struct-field", "struct-variant-field", "newtype-payload", "generic-argument", "alias-target", "serialized-as-field", "serialized-as-item", "serialized-as-tuple-struct-field", "serialized-as-variant-payload", "serialized-as-struct-variant-field"] {
             for depth in 0..=5usize {
-                for skip in 0..7u8 {
+                for skip in 0..8u8 {
                     if skip >= 3 && depth % 3 != 0 {
                         continue;
                     }
@@ -101,7 +102,7 @@ fn plants(rng: &mut Rng, per_cell: usize) -> Vec<Plant> {
         }
     }
     // structural constructs
-    for skip in 0..7u8 {
+    for skip in 0..8u8 {
         let sk = skip_attr(skip);
         let structural: Vec<(&'static str, &'static str, String, bool)> = vec![
             ("tuple-variant-2-fields", "variant", format!("#[typeshare]\n#[serde(tag = \"t\", content = \"c\")]\npub enum Victim {{\n    A(u8),\n    {sk}    B(u8, String),\n}}\n"), true),
@@ -113,6 +114,8 @@ fn plants(rng: &mut Rng, per_cell: usize) -> Vec<Plant> {
             ("serde-flatten-with-serialized-as", "struct-field", format!("#[typeshare]\npub struct Victim {{\n    pub ok: u8,\n    {sk}    #[serde(flatten)]\n    #[typeshare(serialized_as = \"HashMap<String, String>\")]\n    pub bad: Fine,\n}}\n"), true),
             ("serde-flatten-after-serialized-as", "struct-field", format!("#[typeshare]\npub struct Victim {{\n    pub ok: u8,\n    {sk}    #[typeshare(serialized_as = \"Fine\")]\n    #[serde(rename = \"other\", flatten)]\n    pub bad: Color,\n}}\n"), true),
             ("serde-flatten-with-serialized-as", "struct-variant-field", format!("#[typeshare]\n#[serde(tag = \"t\", content = \"c\")]\npub enum Victim {{\n    A,\n    B {{\n        ok: u8,\n        {sk}        #[typeshare(serialized_as = \"Fine\")]\n        #[serde(flatten)]\n        bad: Color,\n    }},\n}}\n"), true),
+            ("serde-flatten-trailing-comma", "struct-field", format!("#[typeshare]\npub struct Victim {{\n    pub ok: u8,\n    {sk}    #[serde(default, flatten,)]\n    pub bad: Fine,\n}}\n"), true),
+            ("serde-flatten-multi-line-list", "struct-field", format!("#[typeshare]\npub struct Victim {{\n    pub ok: u8,\n    {sk}    #[serde(\n        flatten,\n    )]\n    pub bad: Fine,\n}}\n"), true),
             ("serde-flatten", "struct-variant-field", format!("#[typeshare]\n#[serde(tag = \"t\", content = \"c\")]\npub enum Victim {{\n    A,\n    B {{\n        ok: u8,\n        {sk}        #[serde(flatten)]\n        bad: Fine,\n    }},\n}}\n"), true),
         ];
         // a data-carrying variant in an enum without tag/content: unsupported; under skip the rest is a plain unit enum
@@ -141,6 +144,7 @@ fn plants(rng: &mut Rng, per_cell: usize) -> Vec<Plant> {
         // the key's value does not matter: empty and blank keys are keys
         ("unit-enum-with-empty-tag", "#[typeshare]\n#[serde(tag = \"\")]\npub enum Victim { A, B }\n".into()),
         ("unit-enum-with-blank-content", "#[typeshare]\n#[serde(content = \" \")]\npub enum Victim { A, #[serde(skip)] B(u8) }\n".into()),
+        ("unit-enum-with-tag-trailing-comma", "#[typeshare]\n#[serde(tag = \"kind\",)]\npub enum Victim { A, B }\n".into()),
         ("unit-enum-with-tag-and-content", "#[typeshare]\n#[serde(tag = \"t\", content = \"c\")]\npub enum Victim { A, B }\n".into()),
         ("const-string", "#[typeshare]\npub const VICTIM: &str = \"text\";\n".into()),
         ("const-float", "#[typeshare]\npub const VICTIM: f64 = 1.5;\n".into()),
@@ -349,7 +353,7 @@ pub fn run(ctx: &Ctx) -> (Spec, Report) {
     let _ = std::fs::remove_dir_all(&scratch);
     let spec = Spec {
         level: "fault_enumeration",
-        rule: format!("a supported background program plus exactly one planted unsupported construct: {{u64, i64, usize, isize, tuple type in four spellings (plain, trailing comma, one element, nested)}} x 10 positions (struct field, struct-variant field, newtype payload, generic argument, alias target, serialized_as on a struct field / item / tuple-struct field / variant payload / struct-variant field) x wrapper chains of depth 0-5 (Vec, Option, HashMap key/value, Box, array, slice, reference, user generic) x {{no skip, serde(skip), typeshare(skip), and at depths 0 and 3 either one among other arguments of the attribute (before / after a name-value or list argument) or in a second serde attribute}}, plus tuple structs / variants, serde(flatten) in 3 spellings and 2 positions, alone and next to serialized_as, data enums without tag/content, tag/content on unit enums and 9 non-integer-literal consts: {} plants x 6 languages through the library (must be rejected with an error naming the file; skipped twins must succeed), and {n_cli} cells through the real binary under strace with and without a pre-existing output, single- and multi-file, alone or with valid sibling files of the same crate, the offending item next to accepted items or as the only annotated item of its file, and bystander crates, delivered to the collector in arrival, reversed or seeded order (no create/truncate/write/rename/unlink/mkdir event on the output location, bytes/mtime/inode unchanged); distinct = (construct, position, depth, skip, outcome)", all.len()),
+        rule: format!("a supported background program plus exactly one planted unsupported construct: {{u64, i64, usize, isize, tuple type in four spellings (plain, trailing comma, one element, nested)}} x 10 positions (struct field, struct-variant field, newtype payload, generic argument, alias target, serialized_as on a struct field / item / tuple-struct field / variant payload / struct-variant field) x wrapper chains of depth 0-5 (Vec, Option, HashMap key/value, Box, array, slice, reference, user generic) x {{no skip, serde(skip), typeshare(skip), and at depths 0 and 3 either one among other arguments of the attribute (before / after a name-value or list argument) or in a second serde attribute, or in a list that ends with a comma}}, plus tuple structs / variants, serde(flatten) in 3 spellings and 2 positions, alone and next to serialized_as, data enums without tag/content, tag/content on unit enums and 9 non-integer-literal consts: {} plants x 6 languages through the library (must be rejected with an error naming the file; skipped twins must succeed), and {n_cli} cells through the real binary under strace with and without a pre-existing output, single- and multi-file, alone or with valid sibling files of the same crate, the offending item next to accepted items or as the only annotated item of its file, and bystander crates, delivered to the collector in arrival, reversed or seeded order (no create/truncate/write/rename/unlink/mkdir event on the output location, bytes/mtime/inode unchanged); distinct = (construct, position, depth, skip, outcome)", all.len()),
         assumptions: vec![
             "consts are planted only for backends with const support (TypeScript, Go, Python)".into(),
             "a run that panics or hangs is C07's finding and counted as inconclusive here".into(),
